@@ -39,6 +39,9 @@ def isPrefix : Bytes → Bytes → Bool
 /-- what a `Read` reported besides bytes -/
 inductive REnd where
   | ok | eof | other
+  /-- a read deadline fired: not an error of the stream — the reader extends its deadline and
+  reads on (that a time-out is not latched is C12; here: nothing may be lost around it) -/
+  | timeout
   deriving Repr, DecidableEq
 
 structure Obs where
@@ -49,6 +52,9 @@ structure Obs where
   /-- plaintext length of every record, when the observer could see it -/
   plainLens : Option (List Nat)
   reads : List (Bytes × REnd)
+  /-- how many times the transport stalled (held bytes back until the reader's read deadline had
+  fired and been extended); the reader extends its deadline after every time-out -/
+  stalls : Nat := 0
 
 /-- `none` = the property holds on the observation; otherwise (tag, reason) -/
 def check (o : Obs) : Option (String × String) :=
@@ -66,11 +72,15 @@ def check (o : Obs) : Option (String × String) :=
     some ("records", s!"the records carry {(o.plainLens.getD []).sum} bytes of plaintext for {sent.length} bytes written")
   else if o.reads.any (fun r => r.2 == .other) then
     some ("read-error", "a Read failed with an error other than end-of-stream on an unmodified transport")
+  else if (o.reads.filter (fun r => r.2 == .timeout)).length > o.stalls then
+    some ("spurious-timeout", s!"{(o.reads.filter (fun r => r.2 == .timeout)).length} Reads timed out although the transport stalled only {o.stalls} times and the reader extended its deadline each time")
   else if !isPrefix got sent then
     some ("stream", s!"what was read is not a prefix of what was written (read {got.length} of {sent.length} bytes)")
   else if o.reads.any (fun r => r.2 == .eof) && got != sent then
     some ("early-eof", s!"end-of-stream reported after {got.length} of {sent.length} bytes")
   else none
+-- (with stalls: a stream desynchronised by a time-out shows as `read-error` — a bogus header or
+-- bad_record_mac on an unmodified transport — or as `stream` / `early-eof`)
 
 /-- the hook-level clause: every answer of `maxPayloadSizeForWrite` must let the split loop make
 progress and keep the record within the plaintext limit -/
